@@ -70,6 +70,13 @@ def judge(ck, cases, res, ans):
             if all(b in ("deps", "closure") or b.startswith("span") or (b == "comps" and "closure" in bad) for b in bad):
                 from harness.c01 import signature
                 key = signature(r["morphs"], r.get("attach_sites"))
+            # second face of the same defect (listed separately): on a graph that already holds such a dependent single leg a later generator lights
+            # single legs only, _lit_center indexes an empty list and build() swallows the IndexError — the generator is dropped (accounting fails)
+            if key is None and "acct" in bad and all(b in ("acct", "deps", "closure", "comps") or b.startswith("span") for b in bad) \
+               and r.get("swallowed") and all(x == "IndexError@_lit_center" for x in r["swallowed"]):
+                from harness.c01 import signature
+                if signature(r["morphs"], r.get("attach_sites")):
+                    key = "generator-dropped-on-graph-with-dependent-single-leg"
             ck.fail(key, "n=%d generators %s: %s" % (n, g, "; ".join(names.get(b, b) for b in bad)),
                     {"n": n, "gens": g, "morphs": r["morphs"], "verdict": a, "failed": bad, "kind": kind})
     return nt
@@ -96,6 +103,10 @@ def main():
         cases += G.collections(ck.rng, 1500, 3, 5) + G.collections(ck.rng, 300, 6, 6) + G.collections(ck.rng, 300, 9, 16) + G.dense_collections(ck.rng, 6000, 4, 6) + G.sparse_collections(ck.rng, 4000, 4, 5) + G.sparse_collections(ck.rng, 300, 6, 6, 13, 18)
     else:
         cases += G.collections(ck.rng, 12000, 3, 5) + G.collections(ck.rng, 3000, 6, 7) + G.collections(ck.rng, 150, 8, 8) + G.collections(ck.rng, 3000, 9, 16) + G.dense_collections(ck.rng, 30000, 4, 6) + G.sparse_collections(ck.rng, 25000, 4, 6)
+    # the two 6-qubit witnesses of the listed findings (a dependent single leg: wrong closure; and, on such a graph, a generator dropped after a
+    # swallowed IndexError), on every run
+    cases += [("sparse", 6, ['IIIZYI', 'IXZIII', 'IYYZII', 'ZZIIII', 'IIIZII', 'IIIYIX', 'XIXYII', 'IIIIIX', 'XYYIII', 'IYIIIX', 'IZXIII', 'XIIYII', 'IIIIYZ', 'IIIXIZ', 'IIYZII', 'YIIIIY', 'ZIXIII']),
+              ("sparse", 6, ['IIYIII', 'IIIIIZ', 'IIYIIY', 'IIXIIZ', 'YIIIII', 'IZIIZI', 'IYIIYI', 'IZIIIX', 'IXIXII', 'IXZXII', 'IIIIYY', 'IZIIZI', 'IIZIII', 'IIYIYX', 'XYIIIX', 'IIIXZI', 'IIIIIY', 'IIIXIX'])]
     res = ck.impl("c02", [{"gens": g} for _, _, g in cases], per_case_s=120)
     ans = ck.oracle(requests(cases, res))
     nt = judge(ck, cases, res, ans)
